@@ -41,6 +41,8 @@ def generic_run(prop, propfile, tier, seed, t0, search, rule, what, corr_streams
     ev = dict(theorems=proof["names"], correspondence_cases=evals)
     if extra_evidence:
         ev.update(extra_evidence)
+    fn_cases, fn_count = C.fn_correspondence(prop, tier)   # every callable parser function on its own inputs, model vs code
+    ev.update(per_function_cases=fn_cases, per_function_fns=fn_count)
     C.write_evidence(prop, tier, seed, t0, obligations=proof["obligations"] + 1, discharged=proof["discharged"] + 1,
                      checker_cmd="tools/rs2coq /repo coq/gen && make -C coq %s (coqc 8.16.1) + harness vs ocaml/driver parse" % propfile.replace(".v", ".vo"),
                      evaluations=total + evals, distinct_nontrivial=distinct, rule=rule, samples=samples, extra=ev,
